@@ -140,6 +140,10 @@ func verif_Forwarder_replies(raddr *net.UDPAddr, udpConn *net.UDPConn) {
 	verif.ResetEvents()
 	verif.CallTarget(raddr, udpConn)
 	verif.Ensures(verif.Called("net.conn).Close"), "backend_socket_closed_when_done")
+	// one reply forwarder runs per user address, concurrently: each reads into a
+	// buffer it obtained itself - a buffer shared between them would let one
+	// user's reply be packed from another user's bytes
+	verif.Ensures(verif.CallCount("pool.GetBuf") == 1, "replies_read_into_a_buffer_of_this_forwarder")
 }
 
 // Forwarder, tunnel -> backend (the reader goroutine, one arbitrary iteration):
